@@ -12,7 +12,13 @@ pub struct Number {
 }
 impl PartialEq for Number {
     fn eq(&self, other: &Self) -> bool {
-        (self.value - other.value).abs() / self.value.abs() <= f64::EPSILON
+        let (a, b) = (self.value, other.value);
+        // Symmetric: relative to the larger magnitude.  `a == b` covers
+        // zeroes and equal infinities (where the difference is NaN).
+        a == b
+            || (a.is_finite()
+                && b.is_finite()
+                && (a - b).abs() <= f64::EPSILON * a.abs().max(b.abs()))
     }
 }
 impl Eq for Number {}
